@@ -3,7 +3,7 @@
 # applies a one-off textual mutation to a scratch worktree of /repo (never to /repo itself), runs the checks
 # against it (VERIF_REPO) and removes the mutation again. For monitor validation only.
 f=$1; old=$2; new=$3; shift 3
-WT=/tmp/mutwt
+WT=${MUTWT:-/tmp/mutwt}
 if [ ! -d $WT ]; then git -C /repo worktree add -q --detach $WT HEAD || exit 1; fi
 cd $WT || exit 1
 git checkout -q --detach $(git -C /repo rev-parse HEAD) 2>/dev/null
